@@ -29,6 +29,15 @@ structure RX where
   lastIndex : LI
   deriving Repr, DecidableEq, Inhabited
 
+/-- the text returned by the type-reporting replacer for one match:
+    "<" typeof(match) "," typeof(capture)… "," typeof(offset) "," typeof(string) "|" (string === subject) ">" -/
+def typeReport (strTypes : List Nat) (mt : Caps) (lastIsSubject : Bool) : List Nat :=
+  let str : List Nat := [115, 116, 114, 105, 110, 103]                       -- "string"
+  let und : List Nat := [117, 110, 100, 101, 102, 105, 110, 101, 100]        -- "undefined"
+  let num : List Nat := [110, 117, 109, 98, 101, 114]                        -- "number"
+  60 :: List.intercalate [44] ((mt.map fun o => match o with | some _ => str | none => und) ++ [num, strTypes])
+    ++ 124 :: (if lastIsSubject then [116, 114, 117, 101] else [102, 97, 108, 115, 101]) ++ [62]
+
 def slice (s : List Nat) (a b : Nat) : List Nat := (s.take b).drop a
 
 def capEnd (c : Caps) : Nat := match c.head? with | some (some (_, e)) => e | _ => 0
@@ -41,6 +50,7 @@ inductive Repl
   | str (rv : List Nat)       -- a string: Table 22 `$` substitution applies
   | report                    -- the harness's reporting function (result built from its arguments)
   | const (ret : List Nat)    -- a function returning the constant string `ret`
+  | types                     -- a function reporting `typeof` of every argument and whether the last one === the subject
   deriving Repr, DecidableEq, Inhabited
 
 /-- one step of a call history on one RegExp object and one subject string -/
@@ -49,6 +59,7 @@ inductive Step
   | replaceS (repl : List Nat)        -- String.prototype.replace(re, string)   (repl: UTF-8 bytes / units)
   | replaceF                          -- String.prototype.replace(re, fixed reporting function)
   | replaceK (ret : List Nat)         -- String.prototype.replace(re, function(){ return <ret> })   (a constant function)
+  | replaceT                          -- String.prototype.replace(re, type-reporting function)
   | split (limit : Option Nat)        -- limit already ToUint32'd
   | setLI (v : LI)
   deriving Repr, DecidableEq, Inhabited
